@@ -874,6 +874,83 @@ def monitor_steps(c, out, nm, K):
     return bad[:1], steps
 
 # ------------------------------------------------------------------------------------------------
+# linear solvers (C16Linear.v): one example step of QpMcLinear* (real calcGradient / solveSub / updateWeightVectors),
+# one epoch of QpBoxLinear::solve
+
+LKINDS = ["WW", "CS", "LLW", "ATM", "ATS", "ADM", "MMR", "RI"]
+LSKIP = {"WW", "CS", "LLW", "ADM"}              # gradient(y) is not used by these
+LSIMPLEX = {"CS", "ADM", "ATM"}
+
+def gen_lsteps(rng, lid, t, big):
+    k = rng.choice([2, 3, 3, 4, 5]); n = rng.randint(k + 1, 8 if not big else 14); d = rng.randint(1, 3)
+    y = [i % k for i in range(n)]; rng.shuffle(y)
+    mode = rng.choice(["int", "dyadic"])
+    x = [float(rng.randint(-3, 3)) if mode == "int" else rng.randint(-12, 12) / 4.0 for _ in range(n * d)]
+    C = rng.choice([0.125, 0.25, 1.0, 4.0, 100.0])
+    return "LSTEPS %s %s %s %s %d %d %d %d %s %s" % (lid, t, hx(C), hx(rng.choice([1e-2, 1e-3])), rng.choice([2, 3, 5]), rng.randint(1, 10 ** 6), n, d,
+                                                    " ".join(map(str, y)), " ".join(hx(v) for v in x))
+
+def gen_blsteps(rng, lid, big):
+    n = rng.randint(3, 9 if not big else 16); d = rng.choice([1, 1, 2, 3])
+    y = [i % 2 for i in range(n)]; rng.shuffle(y)
+    x = [rng.randint(-8, 8) / 4.0 for _ in range(n * d)]
+    return "BLSTEPS %s %s %s %s %d %d %d %d %s %s" % (lid, hx(rng.choice([0.25, 1.0, 8.0])), hx(rng.choice([0.0, 0.0, 0.25, 1.0])), hx(rng.choice([0.0, 0.0, 0.125, -0.5])),
+                                                     rng.choice([2, 4, 6]), rng.randint(1, 10 ** 6), n, d, " ".join(map(str, y)), " ".join(hx(v) for v in x))
+
+def lin_wstep(t, K, y, mu):
+    """step vector added to the weight vectors, written from the formulations (independent of the Coq model)"""
+    if t == "WW": return [0.5 * math.fsum(mu) if c == y else -0.5 * mu[c] for c in range(K)]
+    if t == "CS": return [0.5 * math.fsum(m for cc, m in enumerate(mu) if cc != y) if c == y else -0.5 * mu[c] for c in range(K)]
+    if t in ("LLW", "ADM"):
+        mean = math.fsum(mu) / K; return [mean - mu[c] for c in range(K)]
+    if t == "MMR": return [mu[0] - mu[0] / K if c == y else -mu[0] / K for c in range(K)]
+    mean = (math.fsum(mu) - 2.0 * mu[y]) / K
+    return [mu[c] + mean if c == y else mean - mu[c] for c in range(K)]
+
+def monitor_lin(line):
+    """spec monitor on one LS / BL line of the implementation; returns (key, message) or None, and the sub-solver gradient note"""
+    a, b = line.split(" > ")
+    t = a.split()
+    if t[0] == "LS":
+        typ = t[2]; K = int(t[3]); d = int(t[4]); C = fh(t[5]); y = int(t[7]); p0 = 9
+        al = [fh(v) for v in t[p0 + K:p0 + 2 * K + 1]]; x = [fh(v) for v in t[p0 + 2 * K + 1:p0 + 2 * K + 1 + d]]
+        w = [fh(v) for v in t[p0 + 2 * K + 1 + d:p0 + 2 * K + 1 + d + K * d]]
+        r = b.split(" G ")[0].split()
+        kkt = fh(r[0]); al2 = [fh(v) for v in r[2:2 + K + 1]]; mu = [fh(v) for v in r[3 + K:3 + 2 * K]]; w2 = [fh(v) for v in r[3 + 2 * K:3 + 2 * K + K * d]]
+        nvar = 1 if typ == "MMR" else K
+        for c in range(nvar):
+            if not (0.0 <= al2[c] <= C): return ("constraints", "%s: alpha(%d)=%r outside [0, C=%r] after the step" % (typ, c, al2[c], C)), None
+            if not abs(al2[c] - (al[c] + mu[c])) <= 4 * EPSM * (abs(al[c]) + abs(mu[c]) + C): return ("bookkeeping", "%s: alpha(%d)=%r but old value + step = %r" % (typ, c, al2[c], al[c] + mu[c])), None
+        if typ in LSIMPLEX:
+            sm = math.fsum(al2[:K])
+            if not abs(sm - al2[K]) <= 64 * EPSM * (C + 1) * K: return ("constraints", "%s: stored sum %r but sum_c alpha(c) = %r" % (typ, al2[K], sm)), None
+            if not al2[K] <= C: return ("constraints", "%s: stored sum %r exceeds C=%r" % (typ, al2[K], C)), None
+        st = lin_wstep(typ, K, y, mu)
+        for c in range(K):
+            for j in range(d):
+                want = w[c * d + j] + st[c] * x[j]
+                if not abs(w2[c * d + j] - want) <= 16 * EPSM * (abs(w[c * d + j]) + abs(st[c] * x[j]) + 1e-300):
+                    return ("bookkeeping", "%s: w(%d,%d)=%r after the step, w + step(mu)*x = %r" % (typ, c, j, w2[c * d + j], want)), None
+        note = None
+        if kkt > 0.0 and typ != "MMR":
+            gi = [fh(v) for v in b.split(" G ")[1].split(" T ")[0].split()]; gt = [fh(v) for v in b.split(" T ")[1].split()]
+            idx = [c for c in range(K) if not (typ in LSKIP and c == y)]
+            dv = max(abs(gi[c] - gt[c]) for c in idx); sc = 1.0 + max(abs(v) for v in gt)
+            if dv > 1e-9 * sc: note = (typ, dv, a[:400], gi, gt)
+        return None, note
+    n = int(t[5]); d = int(t[6]); bound = fh(t[2]); p0 = 7
+    ys = [int(v) for v in t[p0 + 2 * n + d:p0 + 3 * n + d]]; xs = [fh(v) for v in t[p0 + 3 * n + d:p0 + 3 * n + d + n * d]]
+    r = b.split(" P ")[0].split(); al2 = [fh(v) for v in r[:n]]; w2 = [fh(v) for v in r[n:n + d]]
+    pref = [fh(v) for v in b.split(" P ")[1].split()]
+    if any(v != 1.0 for v in pref): return ("harness", "QpBoxLinear preferences changed in a one-epoch call: the schedule replay of the harness is invalid"), None
+    for i in range(n):
+        if not (0.0 <= al2[i] <= bound): return ("constraints", "QpBoxLinear: alpha(%d)=%r outside [0, %r]" % (i, al2[i], bound)), None
+    for j in range(d):
+        want = math.fsum(al2[i] * ys[i] * xs[i * d + j] for i in range(n)); sc = math.fsum(abs(al2[i] * xs[i * d + j]) for i in range(n)) + 1e-300
+        if not abs(w2[j] - want) <= 1e-12 * sc * n: return ("bookkeeping", "QpBoxLinear: w(%d)=%r but sum_i alpha_i y_i x_i = %r" % (j, w2[j], want)), None
+    return None, None
+
+# ------------------------------------------------------------------------------------------------
 # state model (C16State.v): full positional states of the implementation, one model operation at a time
 
 def split_state_trace(out):
@@ -978,13 +1055,14 @@ def main():
     R = Runner(exe, tmpd, tl=(40.0 if big else 8.0))
     rng = ck.rng
 
-    free_lines = []; step_cfgs = []; groups = []
+    free_lines = []; step_cfgs = []; groups = []; lin_cmds = []
     if ck.replay:
         for l in open(ck.replay).read().split("\n"):
             if not l or l.startswith("#"): continue
             h = l.split()[0]
             if h in ("EDGE", "BOX", "TRI", "GAIN", "LINE", "SPARSE"): free_lines.append(l)
             elif h == "STEPS": step_cfgs.append(parse_steps_line(l))
+            elif h in ("LSTEPS", "BLSTEPS"): lin_cmds.append(l)
             elif h == "GROUP": groups.append(json.loads(l[6:]))
     else:
         free_lines = gen_free(rng, big)
@@ -1001,6 +1079,9 @@ def main():
             for t in [x for x in TYPES if x != "OVA"]:
                 for k in (2, 3, 4, 5):
                     step_cfgs.append(gen_steps_shrink(rng, "h%d" % si, big, t, k)); si += 1
+        for rep in range(12 if big else 3):                 # linear solvers: every formulation
+            for t in LKINDS: lin_cmds.append(gen_lsteps(rng, "l%d" % len(lin_cmds), t, big))
+        for i in range(60 if big else 16): lin_cmds.append(gen_blsteps(rng, "b%d" % i, big))
         rng = rng_main
         gi = 0
         for rep in range(10 if big else 3):                 # every formulation in every stream
@@ -1154,6 +1235,70 @@ def main():
         ck.oblige("one-step correspondence C16Model.simplex_step/box_step (float-instantiated) vs real updateSMO on %d steps of %d runs" % (nsteps, step_runs),
                   not dis_steps and not mon_steps, "" if not (dis_steps or mon_steps) else "%d differing steps, %d monitor failures" % (len(dis_steps), mon_steps))
 
+    # ---- 3b. linear solvers step by step
+    nlin = 0; lin_kinds = {}
+    if lin_cmds:
+        open(os.path.join(tmpd, "lin_in.txt"), "w").write("\n".join(lin_cmds) + "\n")
+        rc, outtxt, err = sh([exe, os.path.join(tmpd, "lin_in.txt")], timeout=900, env=ENV1)
+        cur = []; runs = []
+        for l in outtxt.split("\n"):
+            if l.startswith("LS ") or l.startswith("BL "): cur.append(l)
+            elif l.startswith("LEND ") or l.startswith("EXC ") or l.startswith("STDEXC "): runs.append((cur, l)); cur = []
+        lmon = 0; ldis = []; lnotes = {}; linp = []; lexp = []; lown = []
+        if len(runs) != len(lin_cmds):
+            cf = ck.write_replay("lin_crash.txt", "\n".join(lin_cmds) + "\n")
+            ck.violation("lin-steps:crash", {"case_file": cf, "replay_cmd": "python3 tools/c16.py --replay " + cf}, "implementation crashed/stopped in the step-driven linear solver runs (rc=%s) %s" % (rc, err.strip()[-200:]))
+        for cmd, (ls, endl) in zip(lin_cmds, runs):
+            if not endl.startswith("LEND"):
+                cf = ck.write_replay("lin_%s.txt" % cmd.split()[1], cmd + "\n"); lmon += 1
+                ck.violation("lin-steps:exception:%s" % cmd.split()[2], {"case_file": cf, "case": cmd, "replay_cmd": "python3 tools/c16.py --replay " + cf}, "linear solver step run threw: " + endl); continue
+            found = None
+            for l in ls:
+                bad1, note = monitor_lin(l)
+                if note and note[0] not in lnotes: lnotes[note[0]] = {"max_abs_diff": note[1], "step": note[2], "internal_gradient_after_solveSub": note[3], "gradient_recomputed_from_w": note[4], "command": cmd}
+                if bad1 and not found: found = (bad1, l)
+            if found:
+                lmon += 1; (key, msg), l = found
+                kk = "lin-steps:%s:%s" % (key, cmd.split()[2] if cmd.startswith("LSTEPS") else "box")
+                if kk not in step_reported:
+                    step_reported.add(kk)
+                    cf = ck.write_replay("lin_%s.txt" % cmd.split()[1], "# %s\n%s\n" % (msg, cmd))
+                    ck.violation(kk, {"case_file": cf, "case": cmd, "observed": msg, "step": l[:300], "replay_cmd": "python3 tools/c16.py --replay " + cf},
+                                 "spec monitor fails on the implementation (linear solver, one step): " + msg)
+                continue
+            for l in ls:
+                a, b = l.split(" > ")
+                linp.append(a); lexp.append("V " + b.split(" G ")[0].split(" P ")[0].strip()); lown.append(cmd)
+                kk = a.split()[2] if a.startswith("LS ") else "QpBoxLinear"; lin_kinds[kk] = lin_kinds.get(kk, 0) + 1
+        if linp:
+            rc4, lout, lerr = run_lines(model, linp, os.path.join(tmpd, "lin_model_in.txt"), timeout=900)
+            if rc4 != 0 or len(lout) != len(linp): raise RuntimeError("model driver failed on the linear-solver lines: " + lerr[-500:])
+            inexact = 0
+            for a, e, g, cmd in zip(linp, lexp, lout, lown):
+                if e == g: continue
+                te, tg = e.split(), g.split()
+                ok = len(te) == len(tg)
+                if ok:
+                    for x, z in zip(te[1:], tg[1:]):
+                        u, v = fh(x), fh(z)
+                        if u == v or (u != u and v != v): continue
+                        # QpBoxLinear with more than one feature: inner_prod goes through the BLAS, summation order is not the model's
+                        if a.startswith("BL ") and int(a.split()[6]) > 1 and abs(u - v) <= 1e-10 * (1 + abs(u)): inexact += 1; continue
+                        ok = False; break
+                if not ok: ldis.append((cmd, a, e, g))
+            ck.notes["linear_steps_compared_with_tolerance(QpBoxLinear,d>1)"] = inexact
+        nlin = len(linp)
+        if ldis and not lmon:
+            cmd, a, e, g = ldis[0]
+            cf = ck.write_replay("lin_%s.txt" % cmd.split()[1], cmd + "\n")
+            ck.violation("correspondence:linear", {"case_file": cf, "case": cmd, "step": a[:400], "implementation_output": e[:400], "model_output": g[:400],
+                                                   "broken": "correspondence C16Linear.lin_step / boxlin_epoch vs QpMcLinear* / QpBoxLinear", "replay_cmd": "python3 tools/c16.py --replay " + cf},
+                         "correspondence C16Linear vs the real linear solvers no longer checks (%d steps differ); the spec monitors pass on every explored input" % len(ldis), no_input=True)
+        ck.oblige("linear solvers: C16Linear.lin_step / boxlin_epoch (float-instantiated) vs the real calcGradient+solveSub+updateWeightVectors of QpMcLinear{%s} and QpBoxLinear::solve on %d steps %s"
+                  % (",".join(LKINDS), nlin, lin_kinds), not ldis and not lmon, "" if not (ldis or lmon) else "%d differing steps, %d monitor failures" % (len(ldis), lmon))
+        # not part of property C16 (results stay correct: the outer loop recomputes the gradient), recorded, not hidden
+        ck.notes["linear_subsolver_internal_gradient_differs_from_true_gradient"] = lnotes
+
     # ---- 4. metamorphic groups on the real trainers
     stats = {}; gfail = 0; gknown = 0; known_seen = set(); reported = set(); bykey = {}
     skipped = 0
@@ -1208,7 +1353,7 @@ def main():
         ck.notes["groups_hitting_known_findings"] = gknown
 
     cfgs = stats.get("configs", set())
-    ck.cov["evaluations"] = nfree + nnum + nsteps + stats.get("runs", 0) + (len(st_pairs) if step_cfgs else 0)
+    ck.cov["evaluations"] = nfree + nnum + nsteps + stats.get("runs", 0) + (len(st_pairs) if step_cfgs else 0) + nlin
     if step_cfgs: ck.notes["state_model_operations"] = st_ops
     ck.cov["distinct_nontrivial"] = len([x for x in cfgs if x[-1]]) + len(set(l.split()[0] for l in free_lines)) + len(set((c["type"], c["k"], bool(c["sp"])) for c in step_cfgs))
     ck.cov["rule"] = ("free: generated calls of the 5 analytic functions + QpSparseArray lookups (integers, dyadics, values around the 1e-12/1e-14 thresholds, indefinite blocks), exact model-vs-C++ comparison; "
